@@ -82,6 +82,32 @@ Definition client_stat_via_list {I : Type} (name : text) (listing : list (text *
   | None => None
   end.
 
+(* ---- the listing workers under backend faults ----
+   mlsd_worker / list_worker call the backend once per entry (exists, stat, is_file, is_dir).  A
+   PathIOError out of one of these calls is NOT caught inside the loop: it leaves the worker, the
+   command is answered 451 after the 150 and the client's list() raises StatusCodeError.
+   `faulty e` = some backend call made for entry e raises.  None = the command failed. *)
+Fixpoint worker_lines (faulty : dentry -> bool) (line_of : dentry -> list text) (dir : list dentry)
+  : option (list text) :=
+  match dir with
+  | [] => Some []
+  | e :: rest =>
+      if faulty e then None
+      else match worker_lines faulty line_of rest with
+           | Some ls => Some (line_of e ++ ls)
+           | None => None
+           end
+  end.
+
+Definition mlsd_worker (faulty : dentry -> bool) (dir : list dentry) : option (list text) :=
+  worker_lines faulty (fun e => [build_mlsx_string (de_stat e) (de_kind e) (de_name e)]) dir.
+
+Definition list_worker (half off now : Z) (faulty : dentry -> bool) (dir : list dentry) : option (list text) :=
+  worker_lines faulty (fun e => match de_stat e with
+                                | Some st => [build_list_string half off now st (de_name e)]
+                                | None => []
+                                end) dir.
+
 (* ---- harness interface: extends run_listing ---- *)
 Definition sx_of_entry (e : list (text * text)) : sx := L (map sx_of_kv e).
 
@@ -103,5 +129,9 @@ Definition run_listing_client (fn : Z) (a : sx) : sx :=
       I (match list_plan_of (z 0%nat) (negb (z 1%nat =? 0)) with UseMLSD => 0 | UseLIST => 1 | RaiseStatus => 2 end)
   | 34 => (* the server's MLST lines *)
       L (map sx_of_text (mlst_lines (opt_stats_of_sx (nth_sx 0 a)) (z 1%nat) (t 2%nat)))
+  | 35 => (* worker outcome under faults: list of 0/1 fault flags -> 1 = completes, 0 = fails *)
+      I (match worker_lines (fun e => negb (de_kind e =? 0)) (fun _ => [])
+                 (map (fun f => mkdentry [] None (z_of_sx f)) (list_of_sx (nth_sx 0 a))) with
+         | Some _ => 1 | None => 0 end)
   | _ => run_listing fn a
   end.
